@@ -22,6 +22,7 @@ PAIRS = {
     ("foreach", "disabled", "output"): {"message": "string"},
     ("foreach", "outputs", "success"): {"data": "any"},
     ("foreach", "failed", "error"): {"data": "any", "errors": "any"},
+    ("foreach", "failed", "error#other-output"): {"data": "any", "errors": "any"},
 }
 UNREACHABLE = {("foreach", "closed", "result"): "a foreach step is only closed when the run ends, so no expression can observe closed.result before the result is decided"}
 
@@ -54,10 +55,12 @@ def source(pair):
             x.stop_mode = "before"
         steps.append(x)
     else:
-        sub = gen.sub_program("sub.yaml", 1)
+        sub = gen.sub_program("sub.yaml", 1, other_output="skipped" if variant == "other-output" else None)
         x = Step("X", "foreach", sub=sub, items=Expr(In("items")), parallelism=2)
         if stage == "disabled":
             x.fields["enabled"] = Expr(Not(In("flag")))
+        elif stage == "failed" and variant == "other-output":
+            extra_scripts["sub_w0"] = {"exec_by_tag": {"i1": {"outcome": "alt"}}}
         elif stage == "failed":
             extra_scripts["sub_w0"] = {"exec_by_tag": {"i1": {"outcome": "error"}}}
         steps.append(x)
@@ -151,6 +154,22 @@ def run(check):
                 gs.append(build(pair, consumer, f))
         for f, t in fields.items():
             gs.append(build(pair, "typed-input", f))
+    # the workflow input itself: every input type incl. `pattern` (whose typed form differs from its serialized form)
+    from ..model import InputSchema
+    isch = InputSchema({"s": {"type": "string"}, "p": {"type": ("pattern",)}, "i": {"type": "integer"}, "fl": {"type": "float"}, "bo": {"type": "bool"},
+                        "li": {"type": ("list", ("pattern",))}, "ma": {"type": ("map", "string", "integer")}, "en": {"type": ("enum", ["x", "y"])}})
+    idoc = {"s": "str", "p": "^a+$", "i": 5, "fl": 1.5, "bo": True, "li": ["x|y", "[0-9]+"], "ma": {"k": 3}, "en": "y"}
+    for consumer in ("wf-output", "any-input"):
+        for f in [None] + list(isch.props):
+            if consumer == "any-input" and f in ("p", "li"):
+                continue  # Prepare does not accept a pattern-typed expression for an `any` field: nothing to observe
+            node = In(f) if f else In()
+            if consumer == "wf-output":
+                prog = Program([gen.plugin_step("C", "lit")], {"observed": {"v": Expr(node)}}, isch)
+            else:
+                prog = Program([gen.plugin_step("C", "lit", extra_input={"a": Expr(node)})], {"observed": {"c": Expr(Ref("C", "outputs", "success"))}}, isch)
+            gs.append({"program": prog, "scripts": gen.make_scripts(prog.steps, {}), "input": idoc, "shape": "input%s/%s" % ("." + f if f else "", consumer), "outcome": {},
+                       "pair": ("workflow", "input", "document"), "consumer": consumer, "field": f})
     n_extra = check.pick(150, 2500)
     extra = []
     for i in range(n_extra):
